@@ -5,6 +5,7 @@ CONSTANTS
   Size = "S"
   BodyTerms <- MCBodyTerms
   DfltTerms <- MCDfltTerms
+  AliasTerms <- MCAliasTerms
   QueryTerms <- MCQueryTerms
 INVARIANT ResultGround
 CONSTRAINT DumpConstraint
